@@ -16,9 +16,19 @@ META = {
 LIMITS = [0, 1, 2, 5, 40]
 
 
+def chain_pda(L):
+    """an epsilon chain of L push/pop moves followed by an accepting a-move: the initial closure has L+1 configurations"""
+    Q = ['c%d' % i for i in range(L + 1)] + ['f']
+    delta = [['c%d' % i, '_', '_' if i % 2 == 0 else 'x', [['c%d' % (i + 1), 'x' if i % 2 == 0 else '_']]] for i in range(L)]
+    delta.append(['c%d' % L, 'a', '_', [['f', '_']]])
+    return {'Q': Q, 'Sigma': ['a'], 'Gamma': ['x'], 'delta': delta, 'q0': 'c0', 'F': ['f'], 'eps': '_', 'dd': True}
+
+
 def cases(ctx):
     thorough = ctx.tier == 'thorough'
     rng = ctx.rng
+    # the limit must be honoured whatever value it is set to, also above the default of 1000
+    yield {'P': chain_pda(1100), 'words': ['a'], 'limits': [1300, 1000]}
     for i in range(700 if not thorough else 6000):
         P = gen.random_pda(rng)
         ws = gen.all_words(P['Sigma'], 3 if len(P['Sigma']) <= 2 else 2)
